@@ -15,6 +15,12 @@ fn main() {
     if args.first().map(String::as_str) == Some("__tsparse") && args.len() == 3 {
         std::process::exit(bwv::pool::ts_parse_only(&args[1], &args[2]));
     }
+    if args.first().map(String::as_str) == Some("__sexp") && args.len() == 3 {
+        // debugging aid: the grammar's own parse tree of a file (language id, path)
+        let id: &'static str = Box::leak(args[1].clone().into_boxed_str());
+        println!("{}", bwv::langs::sexp(id, &std::fs::read_to_string(&args[2]).unwrap_or_default()));
+        return;
+    }
     if args.len() < 2 {
         usage();
     }
